@@ -73,7 +73,7 @@ func listRegular(root string) map[string]int64 {
 func TestVerifC18(t *testing.T) {
 	const check = "C18.model"
 	res := verifrt.NewResult(check)
-	res.Rule = "random sequences (5-200 ops) of write / overwrite with longer, shorter and empty content / read / read-absent / list(prefix) / Copy over a pool of slash-separated names (1-5 levels; components with dots, dashes, '=', spaces, unicode, date-like; no name a directory-prefix of another); prefixes: empty, every component boundary, mid-component, whole names, non-matching. Oracle: in-memory map; after every op every regular file under the scratch root lies at <dir>/<bucket>/<name> and nothing else exists. distinct = distinct sequences; non-trivial = sequence overwrote at least one object and listed with a non-empty prefix"
+	res.Rule = "random sequences (5-200 ops) of write / overwrite with longer, shorter and empty content / read / read-absent / list(prefix) / Copy / listing and reading everything else while one object is half-written, over a pool of slash-separated names (1-5 levels, plus siblings that differ by .tmp ~ .part .lock .swp suffixes or a leading dot; components with dots, dashes, '=', spaces, unicode, date-like; no name a directory-prefix of another); prefixes: empty, every component boundary, mid-component, whole names, non-matching. Oracle: in-memory map; after every op every regular file under the scratch root lies at <dir>/<bucket>/<name> and nothing else exists. distinct = distinct sequences; non-trivial = sequence overwrote at least one object and listed with a non-empty prefix"
 	base := vtmp("c18-")
 	defer os.RemoveAll(base)
 	ctx := context.Background()
@@ -92,6 +92,20 @@ func TestVerifC18(t *testing.T) {
 		}
 		other, _ := NewFSBucket(ctx, root, "other-bucket")
 		names := c18Names(rnd, 3+rnd.Intn(12))
+		// sibling names that differ by a suffix or prefix an implementation might
+		// use for scratch files: they are ordinary object names
+		for _, n := range names[:1+rnd.Intn(3)] {
+			switch rnd.Intn(3) {
+			case 0:
+				names = append(names, n+verifrt.Pick(rnd, []string{".tmp", "~", ".part", ".new", ".bak", ".lock", ".swp", ".tmp.tmp", ".1"}))
+			case 1:
+				if j := strings.LastIndex(n, "/"); j >= 0 {
+					names = append(names, n[:j+1]+"."+n[j+1:]+verifrt.Pick(rnd, []string{".tmp", "", ".swp"}))
+				} else {
+					names = append(names, "."+n+".tmp")
+				}
+			}
+		}
 		model := map[string][]byte{}
 		nops := verifrt.Pick(rnd, []int{5, 20, 60, 200})
 		var sig strings.Builder
@@ -101,7 +115,67 @@ func TestVerifC18(t *testing.T) {
 		for op := 0; op < nops && !bad; op++ {
 			rp := verifrt.CaseReplay(i, map[string]any{"op": op, "ops": sig.String()})
 			name := names[rnd.Intn(len(names))]
-			switch k := rnd.Intn(10); {
+			switch k := rnd.Intn(11); {
+			case k == 10: // a write in progress while the bucket is listed and read
+				content := rnd.Bytes(rnd.Intn(2000))
+				w, err := bh.Object(name).NewWriter(ctx)
+				if err != nil {
+					res.Violate("write-failed", fmt.Sprintf("opening a writer for %q: %v", name, err), rp)
+					bad = true
+					break
+				}
+				half := len(content) / 2
+				w.Write(content[:half])
+				it := bh.Objects(ctx, "")
+				seen := map[string]bool{}
+				for k := 0; k < 100000; k++ {
+					o, err := it.Next()
+					if err != nil {
+						break
+					}
+					seen[o] = true
+				}
+				for n := range model {
+					if !seen[n] && n != name {
+						res.Violate("list-mismatch:during-write", fmt.Sprintf("while %q is being written, stored object %q is missing from the listing", name, n), rp)
+						bad = true
+					}
+				}
+				for o := range seen {
+					if _, ok := model[o]; !ok && o != name {
+						res.Violate("list-mismatch:during-write", fmt.Sprintf("while %q is being written, the listing names %q which nobody stored", name, o), rp)
+						bad = true
+					}
+				}
+				for n, c := range model {
+					if n == name {
+						continue
+					}
+					rd, err := bh.Object(n).NewReader(ctx)
+					if err != nil {
+						res.Violate("read-failed:during-write", fmt.Sprintf("while %q is being written, reading %q: %v", name, n, err), rp)
+						bad = true
+						break
+					}
+					got, _ := io.ReadAll(rd)
+					rd.Close()
+					if string(got) != string(c) {
+						res.Violate("roundtrip:during-write", fmt.Sprintf("while %q is being written, object %q reads %d bytes, stored %d", name, n, len(got), len(c)), rp)
+						bad = true
+					}
+				}
+				w.Write(content[half:])
+				if err := w.Close(); err != nil {
+					res.Violate("write-failed", fmt.Sprintf("closing the writer of %q: %v", name, err), rp)
+					bad = true
+					break
+				}
+				if _, ok := model[name]; ok {
+					overwrote = true
+				}
+				model[name] = content
+				res.Hit("list-during-write")
+				fmt.Fprintf(&sig, "W(%s,%d);", name, len(content))
 			case k < 4: // write / overwrite
 				var content []byte
 				switch rnd.Intn(4) {
@@ -261,7 +335,7 @@ func TestVerifC18(t *testing.T) {
 		}
 		os.RemoveAll(root)
 	}
-	res.Require("overwrite-shorter", "read-absent", "list", "list-deeply-nested")
+	res.Require("list-during-write", "overwrite-shorter", "read-absent", "list", "list-deeply-nested")
 	if err := res.Write(); err != nil {
 		t.Fatal(err)
 	}
